@@ -244,12 +244,41 @@ pub fn gen_hist(rng: &mut Rng, profile: Profile, size: Size) -> Plan {
     let mut iters: Vec<usize> = vec![];
     let mut next_slot = 0usize;
     let mut reopens_left = n_opens - 1;
+    // versions shape, warm start: a few rounds of plain writes over the whole key set (no reads, no
+    // oracles in between) so that the random part of the plan starts from an LSM tree with
+    // several populated levels instead of an empty one
+    let mut n_ops = n_ops;
+    if versions && prng.chance(2, 3) {
+        let rounds = 1 + prng.usize_below(3);
+        for _ in 0..rounds {
+            let mut order: Vec<usize> = (0..keys.len()).collect();
+            prng.shuffle(&mut order);
+            for k in order {
+                if prng.chance(1, 8) {
+                    ops.push(Op::Delete { k });
+                } else {
+                    ops.push(Op::Put { k, v: tags.val(&mut prng, &vp) });
+                }
+            }
+        }
+        n_ops += ops.len();
+    }
+    let warm = ops.len();
     // versions shape: one snapshot is taken early and released in the middle of the plan, so that
     // what it pinned is merged later
-    let pin_at = if versions { Some(prng.usize_below(n_ops / 4 + 1)) } else { None };
-    let unpin_at = n_ops / 3 + prng.usize_below(n_ops / 3 + 1);
+    let pin_at = if versions { Some(prng.usize_below(warm + (n_ops - warm) / 4 + 1)) } else { None };
+    let unpin_at = warm + (n_ops - warm) / 3 + prng.usize_below((n_ops - warm) / 3 + 1);
     let mut pinned: Option<usize> = None;
     let mut pin_done = false;
+    if let Some(at) = pin_at {
+        if at < warm {
+            // inside the warm start
+            ops.insert(at, Op::Snap { slot: next_slot });
+            pinned = Some(next_slot);
+            next_slot += 1;
+            n_ops += 1;
+        }
+    }
     while ops.len() < n_ops {
         if let Some(at) = pin_at {
             if !pin_done && pinned.is_none() && ops.len() >= at {
